@@ -77,7 +77,13 @@ impl<Auth: Sasl> HandshakeState<Auth> {
 
                 *self = HandshakeState::Done(tune_ok.clone(), server_properties.clone());
             }
-            HandshakeState::ServerClosing(_) | HandshakeState::Done(_, _) => {
+            HandshakeState::Done(_, _) => {
+                // The server is free to go on right behind OpenOk, and what it sends can
+                // arrive in the very read that completes the handshake. Those frames belong
+                // to the established connection: keep them for it.
+                inner.early_frames.push(frame);
+            }
+            HandshakeState::ServerClosing(_) => {
                 return FrameUnexpectedSnafu.fail();
             }
         }
